@@ -69,6 +69,7 @@ type ssoP struct {
 	B64Wrap   string // base64 line structure (RFC 2045 allows line breaks; POST binding only): "" one line | 76 | 64crlf
 	Flate     string // DEFLATE block structure on the Redirect binding (msg.DeflateKind): "" | stored | huffman | fast | flushed | chunks
 	HTTP      string // HTTP-level shape of the same request (world.HTTPShapes)
+	Sibling   string // another provider instance alive in the same process (world.SiblingKinds)
 	CType     string // Content-Type spelling of a POST: "" plain | charset | mixed-case | charset-quoted
 	Deflate   string // "" ok | truncated
 	XML       string // "" ok | ill-formed | root-logout | root-response | wrong-ns | empty-doc
@@ -218,7 +219,7 @@ func boolTrue(s string) bool { return s == "true" || s == "1" }
 // ssoBuild constructs the world and the HTTP request for p.
 func ssoBuild(p ssoP) (*world.World, *http.Request, *ssoTruth) {
 	cfg := p.config()
-	w, err := world.New(cfg)
+	w, err := world.WithSibling(p.Sibling, func() (*world.World, error) { return world.New(cfg) })
 	if err != nil {
 		panic(err)
 	}
@@ -910,6 +911,8 @@ func (p *ssoP) set(name, val string) {
 		p.CType = val
 	case "HTTP":
 		p.HTTP = val
+	case "Sibling":
+		p.Sibling = val
 	case "Frac":
 		p.Frac = val
 	case "Transport":
